@@ -288,34 +288,29 @@ theorem fromType_ok {t : PTy} (h : t.shallow = true) : PTy.fromType t = .ok t :=
   simp [PTy.fromType]; omega
 
 mutual
-theorem isValidValue_spec (ty : PTy) : (v : Value) → Value.hasEnum v = false →
-    ∃ b, ty.isValidValue v = .ok b ∧ (b = true ↔ Fits ty v)
-  | .null, _ => ⟨ty.nullable, by simp [PTy.isValidValue], by simp [Fits, PTy.nullable]⟩
-  | .int64 _, _ => by cases ty <;> simp [PTy.isValidValue, Fits, PTy.isList, PTy.base]
-  | .uint64 _, _ => by cases ty <;> simp [PTy.isValidValue, Fits, PTy.isList, PTy.base]
-  | .float64 _, _ => by cases ty <;> simp [PTy.isValidValue, Fits, PTy.isList, PTy.base]
-  | .string _, _ => by cases ty <;> simp [PTy.isValidValue, Fits, PTy.isList, PTy.base]
-  | .boolean _, _ => by cases ty <;> simp [PTy.isValidValue, Fits, PTy.isList, PTy.base]
-  | .enum _, h => by simp [Value.hasEnum] at h
-  | .list l, h => by
+/-- `is_valid_value` decides `Fits`, for every value — enum constants included (they fit nothing; before
+the repair of F-C19-1 this was stated for enum-free values only, the others being a panic). -/
+theorem isValidValue_spec (ty : PTy) : (v : Value) → (ty.isValidValue v = true ↔ Fits ty v)
+  | .null => by simp [PTy.isValidValue, Fits, PTy.nullable]
+  | .int64 _ => by cases ty <;> simp [PTy.isValidValue, Fits, PTy.isList, PTy.base]
+  | .uint64 _ => by cases ty <;> simp [PTy.isValidValue, Fits, PTy.isList, PTy.base]
+  | .float64 _ => by cases ty <;> simp [PTy.isValidValue, Fits, PTy.isList, PTy.base]
+  | .string _ => by cases ty <;> simp [PTy.isValidValue, Fits, PTy.isList, PTy.base]
+  | .boolean _ => by cases ty <;> simp [PTy.isValidValue, Fits, PTy.isList, PTy.base]
+  | .enum _ => by cases ty <;> simp [PTy.isValidValue, Fits]
+  | .list l => by
     cases ty with
-    | named n b => exact ⟨false, by simp [PTy.isValidValue], by simp [Fits]⟩
+    | named n b => simp [PTy.isValidValue, Fits]
     | list inner b =>
-      have := allValid_spec inner l (by simpa [Value.hasEnum] using h)
+      have := allValid_spec inner l
       simpa [PTy.isValidValue, Fits] using this
-theorem allValid_spec (ty : PTy) : (vs : List Value) → Value.anyEnum vs = false →
-    ∃ b, PTy.allValid ty vs = .ok b ∧ (b = true ↔ ∀ v ∈ vs, Fits ty v)
-  | [], _ => ⟨true, by simp [PTy.allValid], by simp⟩
-  | v :: vs, h => by
-    simp only [Value.anyEnum, Bool.or_eq_false_iff] at h
-    obtain ⟨b1, h1, h1'⟩ := isValidValue_spec ty v h.1
-    obtain ⟨b2, h2, h2'⟩ := allValid_spec ty vs h.2
-    cases b1 with
-    | true => exact ⟨b2, by simp [PTy.allValid, h1, h2], by simp [h2', h1'.mp rfl]⟩
-    | false =>
-      refine ⟨false, by simp [PTy.allValid, h1], ?_⟩
-      have : ¬ Fits ty v := fun hf => by simpa using h1'.mpr hf
-      simp [this]
+theorem allValid_spec (ty : PTy) : (vs : List Value) →
+    (PTy.allValid ty vs = true ↔ ∀ v ∈ vs, Fits ty v)
+  | [] => by simp [PTy.allValid]
+  | v :: vs => by
+    have h1 := isValidValue_spec ty v
+    have h2 := allValid_spec ty vs
+    simp only [PTy.allValid, Bool.and_eq_true, List.mem_cons, forall_eq_or_imp, h1, h2]
 end
 
 
@@ -336,21 +331,20 @@ def InvariantsRule (vts : List TypeDef) (root : Name) : Prop :=
 theorem checkDefault_spec (t : TypeDef) (f : Field) (a : Arg) (hc : a.clean = true) :
     ∃ es, checkDefault t f a = .ok es ∧ (es = [] ↔ DefaultRule a) := by
   unfold checkDefault DefaultRule
-  simp only [Arg.clean, Bool.and_eq_true] at hc
+  simp only [Arg.clean] at hc
   cases hd : a.default with
   | none => exact ⟨[], rfl, by simp⟩
   | some dv =>
     cases dv with
     | bad => exact ⟨_, rfl, by simp⟩
     | val v =>
-      simp only [hd, Bool.not_eq_eq_eq_not, Bool.not_true] at hc
-      obtain ⟨b, hb, hb'⟩ := isValidValue_spec a.ty v hc.2
-      simp only [fromType_ok hc.1, hb]
-      cases b with
-      | true => exact ⟨[], rfl, by simpa using hb'.mp rfl⟩
+      have hb' := isValidValue_spec a.ty v
+      simp only [fromType_ok hc]
+      cases hb : a.ty.isValidValue v with
+      | true => exact ⟨[], by simp, by simpa using hb'.mp hb⟩
       | false =>
-        refine ⟨_, rfl, ?_⟩
-        have : ¬ Fits a.ty v := fun hf => by simpa using hb'.mpr hf
+        refine ⟨_, by simp; rfl, ?_⟩
+        have : ¬ Fits a.ty v := fun hf => by simpa [hb] using hb'.mpr hf
         simpa using this
 
 theorem depth_le_one_iff (t : PTy) :
